@@ -106,8 +106,27 @@ def parse_outcome(s):
         return ("unrelated", "RecursionError")
     except Exception as e:
         return ("unrelated", type(e).__name__ + ": " + str(e)[:80])
+    out = _graph_outcome(g)
+    if len(s) <= 400:
+        # the graph belongs to the caller: whatever the caller does to it, the next parse of the same string
+        # must return the denoted graph again
+        try:
+            for a in list(g.nodes)[:1]:
+                g.nodes[a]["mass"] = 7777
+            g.add_node("scratch-node")
+            g2 = graph_from_tucan(s)
+        except Exception as e:
+            return ("unrelated", "second parse of the same string raised %s" % type(e).__name__)
+        out2 = _graph_outcome(g2)
+        if out2 != out:
+            return ("unrelated", "second parse of the same string returns another graph after the caller modified the first result (%d / %d atoms)"
+                    % (len(out[1]), len(out2[1])))
+    return out
+
+
+def _graph_outcome(g):
     # a returned graph may be malformed (e.g. a node without attributes): report what is there
-    atoms = [(a, d.get("atomic_number"), d.get("mass"), d.get("rad"), d.get("partition")) for a, d in sorted(g.nodes(data=True))]
+    atoms = [(a, d.get("atomic_number"), d.get("mass"), d.get("rad"), d.get("partition")) for a, d in sorted(g.nodes(data=True), key=lambda x: (not isinstance(x[0], int), x[0] if isinstance(x[0], int) else str(x[0])))]
     syms_ok = all(d.get("element_symbol") == SYM.get(d.get("atomic_number")) for _, d in g.nodes(data=True))
     return ("ok", atoms, sorted(tuple(sorted(e)) for e in g.edges), syms_ok)
 
